@@ -2,13 +2,14 @@
 they are.  A switch saves the outgoing fiber's instruction pointer into its frame — unless that fiber has completed —, makes the incoming fiber
 current and active, and continues at ITS saved instruction pointer in the function of ITS top frame.  Entering a function saves the caller's
 instruction pointer first, pushes the frame, and continues at the start of the callee.  store_ip / load_ip / the fiber operations are stubs that
-log which fiber they act on."""
+log which fiber they act on.  A fiber that stops waiting is unblocked and joins the run queue AT THE END (first in, first out: signalvm takes from
+the front)."""
 UNIT = dict(
   name='basicvm',
   properties=['C07', 'C01'],
-  items=[('laythe_vm/src/vm/basic.rs', [('impl Vm', ['context_switch', 'push_frame'])])],
+  items=[('laythe_vm/src/vm/basic.rs', [('impl Vm', ['context_switch', 'push_frame', 'queue_blocked_fiber'])])],
   rewrites=[
-    ('R7', 'Vm::*', dict(pat=r'pub\(super\) unsafe fn', rep='pub fn', regex=True, count=1)),
+    ('R7', 'Vm::*', dict(pat=r'pub\(super\) unsafe fn', rep='pub fn', regex=True, optional=True)),
     ('R6', 'Vm::*', dict(pat='Ref<Fiber>', rep='FiberRef', optional=True)),
     ('R6', 'Vm::*', dict(pat='ObjRef<Fun>', rep='FunRef', optional=True)),
     # R9: `let mut fiber = self.fiber; fiber.push_frame(self, ..)` (a copy of the GC pointer) -> the fiber reached through self
@@ -18,6 +19,12 @@ UNIT = dict(
     ('R16', 'Vm::context_switch', dict(pat='self.fiber.is_complete()', rep='self.verif_is_complete(self.fiber)', count=1)),
     ('R16', 'Vm::context_switch', dict(pat='self.fiber.activate();', rep='self.verif_activate(self.fiber);', count=1)),
     ('R16', 'Vm::context_switch', dict(pat='fiber.fun()', rep='self.verif_fiber_fun(fiber)', optional=True)),
+    # queue_blocked_fiber: the downcast of the waiter's payload and the state change of the fiber (GC pointers) -> named stubs on the fiber identity
+    ('R7', 'Vm::queue_blocked_fiber', dict(pat=r'pub\(super\) fn', rep='pub fn', regex=True, count=1)),
+    ('R6', 'Vm::queue_blocked_fiber', dict(pat='mut waiter: Ref<ChannelWaiter>', rep='waiter: WaiterRef', count=1)),
+    ('R6', 'Vm::queue_blocked_fiber', dict(pat='waiter.get_waiter_mut::<FiberRef>()', rep='self.verif_waiter_fiber(waiter)', count=1)),
+    ('R16', 'Vm::queue_blocked_fiber', dict(pat='fiber.unblock();', rep='self.verif_unblock(fiber);', count=1)),
+    ('R6', 'Vm::queue_blocked_fiber', dict(pat='(*fiber)', rep='(fiber)', count=1)),
   ],
   assumption_ids=['A-fiber'],
 )
